@@ -4346,9 +4346,11 @@ class Wallet(object):
                     fee_exact and abs((float(transaction.fee) - float(fee_exact)) / float(fee_exact)) > 0.10:
                 _logger.info("Transaction fee not correctly estimated (est.: %d, real: %d). "
                              "Recreate transaction with correct fee" % (transaction.fee, fee_exact))
+                # Keep the number of change outputs the exact fee was calculated for (0 = random would draw again)
+                n_change_outputs = number_of_change_outputs or len([o for o in transaction.outputs if o.change])
                 transaction = self.transaction_create(output_arr, input_arr, input_key_id, account_id, network,
                                                       fee_exact, min_confirms, max_utxos, locktime,
-                                                      number_of_change_outputs, random_output_order,
+                                                      n_change_outputs, random_output_order,
                                                       replace_by_fee)
                 transaction.sign(priv_keys)
 
